@@ -79,6 +79,9 @@ type c20ctx struct {
 	stunSite  map[*ssa.Call]bool
 
 	originMemo map[string]*c20orig
+
+	fNonce, fObfs *types.Var
+	helperMemo    map[string]bool // c20helperCall results
 }
 
 // agg records a (possibly repeated) obligation; instances sharing a key are and-ed.
@@ -369,30 +372,28 @@ func c20pkgPath(f *ssa.Function) string {
 }
 
 // c20lenBound: what the edge (cond, pol) establishes about len(pkt).
-func c20lenBound(cond ssa.Value, pol bool, pkt ssa.Value) (lo, hi int64, hasLo, hasHi bool) {
+func c20lenBound(cond ssa.Value, pol bool, fr *c20frame) (lo, hi int64, hasLo, hasHi bool) {
 	b, ok := cond.(*ssa.BinOp)
 	if !ok {
 		return
 	}
-	isLen := func(v ssa.Value) bool {
-		call, ok := resolve(v).(*ssa.Call)
-		return ok && isBuiltinCall(call, "len") && resolve(call.Call.Args[0]) == pkt
-	}
 	op := b.Op
 	var k int64
+	dx, isLenX := fr.lenDelta(b.X)
+	dy, isLenY := fr.lenDelta(b.Y)
 	switch {
-	case isLen(b.X):
+	case isLenX:
 		c, isC := constInt(b.Y)
 		if !isC {
 			return
 		}
-		k = c
-	case isLen(b.Y):
+		k = c + dx
+	case isLenY:
 		c, isC := constInt(b.X)
 		if !isC {
 			return
 		}
-		k = c
+		k = c + dy
 		switch op { // const OP len  ==  len OP' const
 		case token.LSS:
 			op = token.GTR
@@ -601,7 +602,7 @@ func c20depsWithEffects(fn *ssa.Function, v ssa.Value) map[ssa.Value]bool {
 func checkC20(c *Check) {
 	lockBalanceRule(c, "C20", pRealm)
 	p := c.P
-	x := &c20ctx{c: c, p: p, la: p.Locks(), aggs: map[string]*c20agg{}, stunFns: map[*ssa.Function]int{}, verified: map[string]bool{}, punchSite: map[*ssa.Call]bool{}, stunSite: map[*ssa.Call]bool{}, originMemo: map[string]*c20orig{}}
+	x := &c20ctx{c: c, p: p, la: p.Locks(), aggs: map[string]*c20agg{}, stunFns: map[*ssa.Function]int{}, verified: map[string]bool{}, punchSite: map[*ssa.Call]bool{}, stunSite: map[*ssa.Call]bool{}, originMemo: map[string]*c20orig{}, helperMemo: map[string]bool{}}
 	defer x.flush()
 
 	connT := p.Named(pRealm, "PunchPacketConn")
@@ -843,7 +844,7 @@ func (x *c20ctx) ruleReader(rf *ssa.Function) {
 			}
 		})
 	}
-	c.Floor("C20.R1:emit-sends", nSel, 2)
+	c.Floor("C20.R1:emit-sends", nSel, 1) // how many emit helpers there are is not part of the property
 
 	// ---- R2
 	derived := map[ssa.Value]bool{pbuf: true}
@@ -1263,7 +1264,7 @@ func (x *c20ctx) ruleRegistry(connT *types.Named, addFn, removeFn *ssa.Function)
 		nAcc += x.mapDiscipline(c20r3, "C20.R3:"+f.Name(), f, mu)
 	}
 	sort.Strings(regNames)
-	c.Floor("C20.R3:registry-accesses", nAcc, 3)
+	c.Floor("C20.R3:registry-accesses", nAcc, 1) // add / remove / decode sites have their own anchors
 
 	// the reader's decode sites use live registry entries
 	for _, site := range x.baseSites {
@@ -1326,9 +1327,16 @@ func (x *c20ctx) ruleDecoder(encodeFn *ssa.Function, fNonce, fObfs *types.Var, m
 	if len(srcs) == 0 {
 		return
 	}
-	allGuarded := func(pred EdgePred) (bool, string) {
+	x.fNonce, x.fObfs = fNonce, fObfs
+	// frD: the decoder's own frame (completed once the un-XOR call is known);
+	// guards are looked for in DecodePunchPacket and, through the success edge
+	// of a repository helper applied to the packet / the un-XORed payload, in
+	// that helper (c20srcHolds).
+	var frD *c20frame
+	var maskFn *ssa.Function
+	allGuarded := func(kind string, mkPred func(fr *c20frame) EdgePred) (bool, string) {
 		for _, s := range srcs {
-			if !c20srcGuarded(s.from, s.to, pred) {
+			if !x.c20srcHolds(frD, s, true, maskFn, kind, mkPred) {
 				return false, p.InstrPos(s.ret)
 			}
 		}
@@ -1361,6 +1369,9 @@ func (x *c20ctx) ruleDecoder(encodeFn *ssa.Function, fNonce, fObfs *types.Var, m
 				root, lo, hi, ok := c20sliceChain(c20unwrapCopy(a))
 				if !ok || !isPacket(root) || hi != -1 || lo <= 0 {
 					continue
+				}
+				if !c20writesParam(staticCallee(call), i, 0) {
+					continue // a helper that only reads the payload (extracted parser) is not the un-XOR
 				}
 				mc := maskCall{call: call, fn: staticCallee(call), data: resolve(a), dataIdx: i, S: int(lo), saltIdx: -1, keyIdx: -1}
 				for j, b := range call.Call.Args {
@@ -1445,14 +1456,32 @@ func (x *c20ctx) ruleDecoder(encodeFn *ssa.Function, fNonce, fObfs *types.Var, m
 		}
 	}
 
-	// header extent actually read by the decoder, relative to X
-	onX := func(v ssa.Value) (lo, hi int64, ok bool) {
-		root, lo, hi, ok := c20sliceChainTo(v, X)
-		if !ok || root != X {
-			return 0, 0, false
-		}
-		return lo, hi, true
+	maskFn = mk.fn
+	frD = &c20frame{
+		fn:      D,
+		X:       X,
+		lenRel:  map[ssa.Value]int64{pkt: 0},
+		lenVals: map[ssa.Value]int64{},
+		after:   func(in ssa.Instruction) bool { return dominates(mk.call, in) },
+		metaDerived: func(v ssa.Value) bool {
+			return x.origins(v).params[metaIdx]
+		},
+		nonceOK: func(v ssa.Value) bool {
+			b := resolve(v)
+			if _, sliced := b.(*ssa.Slice); sliced {
+				return false // only part of the nonce is compared
+			}
+			o := x.origins(b)
+			return o.fields[fNonce] && !o.fields[fObfs] && o.params[metaIdx]
+		},
 	}
+	if _, isCall := X.(*ssa.Call); isCall {
+		frD.lenRel[X] = S // a fresh copy of packet[salt:]: len(packet) = len(X) + salt
+	}
+
+	// header extent actually read by the decoder (and by helpers it hands the
+	// un-XORed payload to), relative to X
+	onX := frD.onX
 	var H int64
 	allInstrs(D, func(in ssa.Instruction) {
 		switch t := in.(type) {
@@ -1464,6 +1493,21 @@ func (x *c20ctx) ruleDecoder(encodeFn *ssa.Function, fNonce, fObfs *types.Var, m
 			if lo, _, ok := onX(t.X); ok {
 				if k, isC := constInt(t.Index); isC && lo+k+1 > H {
 					H = lo + k + 1
+				}
+			}
+		case *ssa.Call:
+			g := staticCallee(t)
+			if g == nil || g == mk.fn || len(g.Blocks) == 0 || !p.IsRepoFn(g) {
+				return
+			}
+			for i, a := range t.Call.Args {
+				if !c20isByteSlice(a.Type()) || i >= len(g.Params) {
+					continue
+				}
+				if lo, _, ok := onX(a); ok {
+					if h := x.c20writeExtent(g, map[ssa.Value]int64{g.Params[i]: -lo}, mk.fn, 1); h > H {
+						H = h
+					}
 				}
 			}
 		}
@@ -1491,38 +1535,41 @@ func (x *c20ctx) ruleDecoder(encodeFn *ssa.Function, fNonce, fObfs *types.Var, m
 					if src, slo, _, ok := c20sliceChain(call.Call.Args[1]); ok && slo == 0 {
 						if _, isMake := src.(*ssa.MakeSlice); isMake {
 							rel[src] = 0
+						} else if bc, bi := c20callResult(src); bc != nil {
+							// the plain payload is laid out by an extracted builder: its
+							// returned fresh buffer is the payload
+							if g := staticCallee(bc); g != nil && len(g.Blocks) > 0 && p.IsRepoFn(g) && g != mk.fn {
+								if bi < 0 {
+									bi = 0
+								}
+								grel := map[ssa.Value]int64{}
+								allInstrs(g, func(gin ssa.Instruction) {
+									if r, ok := gin.(*ssa.Return); ok {
+										if res := retResults(r); res != nil && bi < len(res) {
+											var ss []c20src
+											c20expand(res[bi], r.Block(), nil, r, 0, &ss)
+											for _, s := range ss {
+												if gr, glo, _, ok := c20sliceChain(s.v); ok && glo == 0 {
+													if _, isMake := gr.(*ssa.MakeSlice); isMake {
+														grel[gr] = 0
+													}
+												}
+											}
+										}
+									}
+								})
+								if h := x.c20writeExtent(g, grel, mk.fn, 0); h > hEnc {
+									hEnc = h
+								}
+							}
 						}
 					}
 				}
 			}
 		})
-		allInstrs(encodeFn, func(in ssa.Instruction) {
-			var root ssa.Value
-			var bound int64
-			switch t := in.(type) {
-			case *ssa.Slice:
-				r, lo, hi, ok := c20sliceChain(t)
-				if !ok {
-					return
-				}
-				root, bound = r, lo
-				if hi > bound {
-					bound = hi
-				}
-			case *ssa.IndexAddr:
-				r, lo, _, ok := c20sliceChain(t.X)
-				k, isC := constInt(t.Index)
-				if !ok || !isC {
-					return
-				}
-				root, bound = r, lo+k+1
-			default:
-				return
-			}
-			if base, ok := rel[root]; ok && bound-base > hEnc {
-				hEnc = bound - base
-			}
-		})
+		if h := x.c20writeExtent(encodeFn, rel, mk.fn, 0); h > hEnc {
+			hEnc = h
+		}
 	}
 	if hEnc > H {
 		H = hEnc
@@ -1530,14 +1577,18 @@ func (x *c20ctx) ruleDecoder(encodeFn *ssa.Function, fNonce, fObfs *types.Var, m
 	padV, _ := constant.Int64Val(constant.ToInt(maxPad.Val()))
 	c.Notes = append(c.Notes, fmt.Sprintf("C20.R4 wire layout: salt=%d header=%d (decoder reads %d, encoder writes %d) maxPadding=%d ⇒ window [%d,%d]", S, H, hDec, hEnc, padV, S+H, S+H+padV))
 
-	ok, pos := allGuarded(func(cond ssa.Value, pol bool) bool {
-		lo, _, hasLo, _ := c20lenBound(cond, pol, pkt)
-		return hasLo && lo >= S+H
+	ok, pos := allGuarded("len-lo", func(fr *c20frame) EdgePred {
+		return func(cond ssa.Value, pol bool) bool {
+			lo, _, hasLo, _ := c20lenBound(cond, pol, fr)
+			return hasLo && lo >= S+H
+		}
 	})
 	x.agg(ok, "C20.R4:length-lower-bound", c20r4, pos, fmt.Sprintf("a success return is reachable without len(packet) >= %d (salt %d + header %d read by the decoder): truncated packets can decode", S+H, S, H))
-	ok, pos = allGuarded(func(cond ssa.Value, pol bool) bool {
-		_, hi, _, hasHi := c20lenBound(cond, pol, pkt)
-		return hasHi && hi <= S+H+padV
+	ok, pos = allGuarded("len-hi", func(fr *c20frame) EdgePred {
+		return func(cond ssa.Value, pol bool) bool {
+			_, hi, _, hasHi := c20lenBound(cond, pol, fr)
+			return hasHi && hi <= S+H+padV
+		}
 	})
 	x.agg(ok, "C20.R4:length-upper-bound", c20r4, pos, fmt.Sprintf("a success return is reachable without len(packet) <= %d (salt+header+MaxPunchPadding): over-long packets are accepted as punch packets", S+H+padV))
 
@@ -1549,68 +1600,147 @@ func (x *c20ctx) ruleDecoder(encodeFn *ssa.Function, fNonce, fObfs *types.Var, m
 		hi    int64
 		prefx bool
 	}
-	cmpOf := func(cond ssa.Value) *cmp {
-		call, ok := cond.(*ssa.Call)
-		if !ok {
+	// cmpOf: the edge (cond, pol) establishes that a slice of the un-XORed
+	// payload equals (starts with) another byte string: bytes.Equal / HasPrefix,
+	// bytes.Compare(..) == 0, subtle.ConstantTimeCompare(..) == 1.
+	cmpOf := func(fr *c20frame, cond ssa.Value, pol bool) *cmp {
+		var call *ssa.Call
+		switch t := cond.(type) {
+		case *ssa.Call:
+			if !pol {
+				return nil
+			}
+			f := staticCallee(t)
+			if f == nil || c20pkgPath(f) != "bytes" || (f.Name() != "Equal" && f.Name() != "HasPrefix") {
+				return nil
+			}
+			call = t
+		case *ssa.BinOp:
+			if t.Op != token.EQL && t.Op != token.NEQ {
+				return nil
+			}
+			cc, _ := resolve(t.X).(*ssa.Call)
+			k, isC := constInt(t.Y)
+			if cc == nil {
+				cc, _ = resolve(t.Y).(*ssa.Call)
+				k, isC = constInt(t.X)
+			}
+			if cc == nil || !isC {
+				return nil
+			}
+			f := staticCallee(cc)
+			if f == nil {
+				return nil
+			}
+			isEq := (t.Op == token.EQL) == pol // the edge says result == k
+			switch {
+			case c20pkgPath(f) == "bytes" && f.Name() == "Compare":
+				if !(isEq && k == 0) {
+					return nil
+				}
+			case c20pkgPath(f) == "crypto/subtle" && f.Name() == "ConstantTimeCompare":
+				// result is 0 or 1
+				if !((isEq && k == 1) || (!isEq && k == 0)) {
+					return nil
+				}
+			default:
+				return nil
+			}
+			call = cc
+		default:
 			return nil
 		}
-		f := staticCallee(call)
-		if f == nil || c20pkgPath(f) != "bytes" || len(call.Call.Args) != 2 || (f.Name() != "Equal" && f.Name() != "HasPrefix") {
+		if len(call.Call.Args) != 2 {
 			return nil
 		}
-		if !dominates(mk.call, call) {
+		if !fr.after(call) {
 			return nil // compared before the un-XOR
 		}
+		prefx := staticCallee(call).Name() == "HasPrefix"
 		a, b := call.Call.Args[0], call.Call.Args[1]
-		if lo, hi, ok := onX(a); ok {
-			return &cmp{call, a, b, lo, hi, f.Name() == "HasPrefix"}
+		if lo, hi, ok := fr.onX(a); ok {
+			return &cmp{call, a, b, lo, hi, prefx}
 		}
-		if f.Name() == "Equal" {
-			if lo, hi, ok := onX(b); ok {
+		if !prefx {
+			if lo, hi, ok := fr.onX(b); ok {
 				return &cmp{call, b, a, lo, hi, false}
 			}
 		}
 		return nil
 	}
-	var magicG *ssa.Global
-	ok, pos = allGuarded(func(cond ssa.Value, pol bool) bool {
-		if !pol {
-			return false
-		}
-		cm := cmpOf(cond)
-		if cm == nil || cm.lo != 0 {
-			return false
-		}
-		root, lo, hi, ok := c20sliceChain(cm.b)
-		g, isG := root.(*ssa.Global)
-		if !ok || !isG || lo != 0 || !isRepoPath(g.Pkg.Pkg.Path()) {
-			return false
+	repoArrayGlobal := func(v ssa.Value) (*ssa.Global, int64) {
+		g, isG := v.(*ssa.Global)
+		if !isG || g.Pkg == nil || !isRepoPath(g.Pkg.Pkg.Path()) {
+			return nil, 0
 		}
 		arr, isArr := g.Type().(*types.Pointer).Elem().Underlying().(*types.Array)
-		if !isArr || (hi != -1 && hi != arr.Len()) {
-			return false
+		if !isArr {
+			return nil, 0
 		}
-		if !cm.prefx && cm.hi != arr.Len() {
-			return false
+		return g, arr.Len()
+	}
+	var magicG *ssa.Global
+	ok, pos = allGuarded("magic", func(fr *c20frame) EdgePred {
+		return func(cond ssa.Value, pol bool) bool {
+			// array comparison [N]byte(payload[:N]) == magic
+			if b, isB := cond.(*ssa.BinOp); isB && ((b.Op == token.EQL && pol) || (b.Op == token.NEQ && !pol)) {
+				for _, pr := range [][2]ssa.Value{{b.X, b.Y}, {b.Y, b.X}} {
+					gu, ok1 := resolve(pr[0]).(*ssa.UnOp)
+					pu, ok2 := resolve(pr[1]).(*ssa.UnOp)
+					if !ok1 || !ok2 || gu.Op != token.MUL || pu.Op != token.MUL {
+						continue
+					}
+					g, n := repoArrayGlobal(gu.X)
+					sa, isSA := pu.X.(*ssa.SliceToArrayPointer)
+					if g == nil || !isSA || !fr.after(pu) {
+						continue
+					}
+					if lo, hi, ok := fr.onX(sa.X); ok && lo == 0 && (hi == -1 || hi >= n) {
+						if at, isArr := sa.Type().(*types.Pointer).Elem().Underlying().(*types.Array); isArr && at.Len() == n {
+							magicG = g
+							return true
+						}
+					}
+				}
+			}
+			cm := cmpOf(fr, cond, pol)
+			if cm == nil || cm.lo != 0 {
+				return false
+			}
+			root, lo, hi, ok := c20sliceChain(cm.b)
+			g, n := repoArrayGlobal(root)
+			if !ok || g == nil || lo != 0 {
+				return false
+			}
+			if hi != -1 && hi != n {
+				return false
+			}
+			if !cm.prefx && cm.hi != n {
+				return false
+			}
+			magicG = g
+			return true
 		}
-		magicG = g
-		return true
 	})
 	x.agg(ok, "C20.R4:magic-equality", c20r4, pos, "a success return is reachable without the un-XORed payload starting with the package's magic array")
 	if magicG != nil {
+		// the encoder, or a repository helper it calls (payload builder extracted
+		// from it), reads the same magic array
 		used := false
-		allInstrs(encodeFn, func(in ssa.Instruction) {
-			for _, op := range in.Operands(nil) {
-				if *op == ssa.Value(magicG) {
-					used = true
+		for _, f := range x.c20repoReach(encodeFn, 4) {
+			allInstrs(f, func(in ssa.Instruction) {
+				for _, op := range in.Operands(nil) {
+					if *op == ssa.Value(magicG) {
+						used = true
+					}
 				}
-			}
-		})
-		x.agg(used, "C20.R4:encoder-agrees:magic", c20r4, p.Pos(encodeFn.Pos()), "the encoder does not write the magic array the decoder compares against")
+			})
+		}
+		x.agg(used, "C20.R4:encoder-agrees:magic", c20r4, p.Pos(encodeFn.Pos()), "neither the encoder nor a helper it calls uses the magic array the decoder compares against")
 	}
 
 	// type validity
-	onXByte := func(v ssa.Value) bool {
+	onXByteIn := func(fr *c20frame, v ssa.Value) bool {
 		v = resolve(v)
 		for i := 0; i < 4; i++ {
 			switch t := v.(type) {
@@ -1631,11 +1761,11 @@ func (x *c20ctx) ruleDecoder(encodeFn *ssa.Function, fNonce, fObfs *types.Var, m
 		if !ok {
 			return false
 		}
-		_, _, ok = onX(ia.X)
+		_, _, ok = fr.onX(ia.X)
 		if !ok {
 			return false
 		}
-		return dominates(mk.call, u)
+		return fr.after(u)
 	}
 	declared := func(t types.Type) map[int64]bool {
 		out := map[int64]bool{}
@@ -1714,45 +1844,42 @@ func (x *c20ctx) ruleDecoder(encodeFn *ssa.Function, fNonce, fObfs *types.Var, m
 		validatorOK[f] = good
 		return good
 	}
-	ok, pos = allGuarded(func(cond ssa.Value, pol bool) bool {
-		if eqDeclared(cond, pol, onXByte) {
-			return true
-		}
-		if !pol {
-			return false
-		}
-		call, isCall := cond.(*ssa.Call)
-		if !isCall {
-			return false
-		}
-		f := staticCallee(call)
-		if f == nil || !p.IsRepoFn(f) {
-			return false
-		}
-		for i, a := range call.Call.Args {
-			if onXByte(a) {
-				return validator(f, i)
+	ok, pos = allGuarded("type", func(fr *c20frame) EdgePred {
+		onXByte := func(v ssa.Value) bool { return onXByteIn(fr, v) }
+		return func(cond ssa.Value, pol bool) bool {
+			if eqDeclared(cond, pol, onXByte) {
+				return true
 			}
+			if !pol {
+				return false
+			}
+			call, isCall := cond.(*ssa.Call)
+			if !isCall {
+				return false
+			}
+			f := staticCallee(call)
+			if f == nil || !p.IsRepoFn(f) {
+				return false
+			}
+			for i, a := range call.Call.Args {
+				if onXByte(a) {
+					return validator(f, i)
+				}
+			}
+			return false
 		}
-		return false
 	})
 	x.agg(ok, "C20.R4:type-is-declared-constant", c20r4, pos, "a success return is reachable without the packet type byte being tested against the declared PunchPacketType constants (the test is missing or also admits undeclared values)")
 
 	// nonce
-	ok, pos = allGuarded(func(cond ssa.Value, pol bool) bool {
-		if !pol {
-			return false
+	ok, pos = allGuarded("nonce", func(fr *c20frame) EdgePred {
+		return func(cond ssa.Value, pol bool) bool {
+			cm := cmpOf(fr, cond, pol)
+			if cm == nil || cm.prefx || cm.hi < 0 {
+				return false
+			}
+			return fr.nonceOK(cm.b)
 		}
-		cm := cmpOf(cond)
-		if cm == nil || cm.prefx || cm.hi < 0 {
-			return false
-		}
-		b := resolve(cm.b)
-		if _, sliced := b.(*ssa.Slice); sliced {
-			return false // only part of the nonce is compared
-		}
-		o := x.origins(b)
-		return o.fields[fNonce] && !o.fields[fObfs] && o.params[metaIdx]
 	})
 	x.agg(ok, "C20.R4:nonce-equality", c20r4, pos, "a success return is reachable without bytes.Equal(payload[a:b], nonce) against the complete nonce decoded from this call's meta.Nonce (a packet of another attempt, or a near miss, decodes)")
 
@@ -1764,6 +1891,321 @@ func (x *c20ctx) ruleDecoder(encodeFn *ssa.Function, fNonce, fObfs *types.Var, m
 		}
 	}
 	x.agg(agree, "C20.R4:encoder-agrees:mask", c20r4, p.Pos(encodeFn.Pos()), "EncodePunchPacket does not mask out[salt:] with the same function, key source (meta.Obfs) and salt split as the decoder")
+}
+
+// c20writesParam: fn stores into (a slice of) its byte-slice parameter #idx,
+// directly, by copy/clear/subtle.XORBytes, or through a callee with a body
+// (two levels).
+func c20writesParam(fn *ssa.Function, idx int, depth int) bool {
+	if fn == nil || idx >= len(fn.Params) || len(fn.Blocks) == 0 {
+		return false
+	}
+	prm := ssa.Value(fn.Params[idx])
+	found := false
+	allInstrs(fn, func(in ssa.Instruction) {
+		if found {
+			return
+		}
+		switch t := in.(type) {
+		case *ssa.Store:
+			if ia, ok := t.Addr.(*ssa.IndexAddr); ok && c20sliceOf(ia.X, prm) {
+				found = true
+			}
+		case *ssa.Call:
+			if b, ok := t.Call.Value.(*ssa.Builtin); ok {
+				if (b.Name() == "copy" || b.Name() == "clear") && len(t.Call.Args) > 0 && c20sliceOf(t.Call.Args[0], prm) {
+					found = true
+				}
+				return
+			}
+			f := staticCallee(t)
+			if f == nil {
+				return
+			}
+			if f.Name() == "XORBytes" && len(t.Call.Args) == 3 && c20sliceOf(t.Call.Args[0], prm) {
+				found = true
+				return
+			}
+			if depth >= 2 {
+				return
+			}
+			for j, a := range t.Call.Args {
+				if c20isByteSlice(a.Type()) && c20sliceOf(a, prm) && c20writesParam(f, j, depth+1) {
+					found = true
+				}
+			}
+		}
+	})
+	return found
+}
+
+// c20frame: a function in which a guard of the punch decoder is looked for,
+// with what the guard predicates need to know about its values.  The root
+// frame is DecodePunchPacket; a child frame is a repository helper the decoder
+// applies to the packet / the un-XORed payload (checks extracted from it).
+type c20frame struct {
+	fn          *ssa.Function
+	X           ssa.Value                  // buffer holding the un-XORed payload (nil: none in this frame)
+	xOff        int64                      // payload offset of X[0]
+	lenRel      map[ssa.Value]int64        // byte slice v -> d with len(packet) = len(v) + d
+	lenVals     map[ssa.Value]int64        // integer v -> d with len(packet) = v + d
+	after       func(ssa.Instruction) bool // the instruction runs after the un-XOR
+	nonceOK     func(ssa.Value) bool       // the value is the complete nonce decoded from this call's meta.Nonce
+	metaDerived func(ssa.Value) bool       // the value derives from the decoder's meta parameter
+	depth       int
+}
+
+// onX describes v as payload[lo:hi] (hi == -1: open ended).
+func (fr *c20frame) onX(v ssa.Value) (lo, hi int64, ok bool) {
+	if fr.X == nil {
+		return 0, 0, false
+	}
+	root, lo, hi, ok := c20sliceChainTo(v, fr.X)
+	if !ok || root != fr.X {
+		return 0, 0, false
+	}
+	if hi >= 0 {
+		hi += fr.xOff
+	}
+	return lo + fr.xOff, hi, true
+}
+
+// lenDelta: v == len(packet) - d.
+func (fr *c20frame) lenDelta(v ssa.Value) (int64, bool) {
+	r := resolve(v)
+	if d, ok := fr.lenVals[r]; ok {
+		return d, true
+	}
+	call, ok := r.(*ssa.Call)
+	if !ok || !isBuiltinCall(call, "len") || len(call.Call.Args) != 1 {
+		return 0, false
+	}
+	a := resolve(call.Call.Args[0])
+	if d, ok := fr.lenRel[a]; ok {
+		return d, true
+	}
+	if root, lo, hi, ok := c20sliceChain(a); ok && hi == -1 {
+		if d, ok := fr.lenRel[root]; ok {
+			return d + lo, true
+		}
+	}
+	return 0, false
+}
+
+// c20srcHolds: the source s of a success result in frame fr is behind an edge
+// accepted by mkPred(fr), or behind / equal to the success of a repository
+// helper all of whose success returns are (recursively, two levels) behind
+// mkPred(helper frame).  For bool results the returned condition itself may
+// be the accepted test (`return a == b`).
+func (x *c20ctx) c20srcHolds(fr *c20frame, s c20src, isErr bool, skip *ssa.Function, kind string, mkPred func(*c20frame) EdgePred) bool {
+	pred := mkPred(fr)
+	v := resolve(s.v)
+	if !isErr && !isConstBool(v, true) && pred(v, true) {
+		return true
+	}
+	if call, idx := c20callResult(v); call != nil && !isNilConst(v) {
+		if x.c20helperCall(fr, call, idx, isErr, skip, kind, mkPred) {
+			return true
+		}
+	}
+	lifted := func(cond ssa.Value, pol bool) bool {
+		if pred(cond, pol) {
+			return true
+		}
+		if y, isNil, ok := nilTest(cond, pol); ok && isNil {
+			if call, idx := c20callResult(y); call != nil && x.c20helperCall(fr, call, idx, true, skip, kind, mkPred) {
+				return true
+			}
+		}
+		if pol {
+			if call, idx := c20callResult(cond); call != nil && x.c20helperCall(fr, call, idx, false, skip, kind, mkPred) {
+				return true
+			}
+		}
+		return false
+	}
+	return c20srcGuarded(s.from, s.to, lifted)
+}
+
+// c20helperCall: result #idx of `call` (made in frame fr) denotes success only
+// behind mkPred in the callee's frame.
+func (x *c20ctx) c20helperCall(fr *c20frame, call *ssa.Call, idx int, wantErr bool, skip *ssa.Function, kind string, mkPred func(*c20frame) EdgePred) bool {
+	g := staticCallee(call)
+	if g == nil || g == skip || fr.depth >= 2 || len(g.Blocks) == 0 || !x.p.IsRepoFn(g) || g == fr.fn {
+		return false
+	}
+	var ri int
+	if wantErr {
+		ri = c20resultIdx(g, c20isError)
+	} else {
+		ri = c20resultIdx(g, c20isBool)
+	}
+	if ri < 0 || !(idx == ri || (idx == -1 && g.Signature.Results().Len() == 1)) {
+		return false
+	}
+	key := fmt.Sprintf("%p/%s/%v/%d", call, kind, wantErr, fr.depth)
+	if v, ok := x.helperMemo[key]; ok {
+		return v
+	}
+	x.helperMemo[key] = false // recursion guard
+	args := call.Call.Args
+	ch := &c20frame{fn: g, lenRel: map[ssa.Value]int64{}, lenVals: map[ssa.Value]int64{}, depth: fr.depth + 1,
+		after: func(ssa.Instruction) bool { return true }}
+	isAfter := fr.after(call)
+	relevant := false
+	for i, a := range args {
+		if i >= len(g.Params) {
+			break
+		}
+		prm := g.Params[i]
+		if c20isByteSlice(a.Type()) {
+			if lo, _, ok := fr.onX(a); ok && isAfter && ch.X == nil {
+				ch.X, ch.xOff = prm, lo
+				relevant = true
+			}
+			ra := resolve(a)
+			if d, ok := fr.lenRel[ra]; ok {
+				ch.lenRel[prm] = d
+				relevant = true
+			} else if root, lo, hi, ok := c20sliceChain(ra); ok && hi == -1 {
+				if d, ok := fr.lenRel[root]; ok {
+					ch.lenRel[prm] = d + lo
+					relevant = true
+				}
+			}
+			continue
+		}
+		if b, ok := a.Type().Underlying().(*types.Basic); ok && b.Info()&types.IsInteger != 0 {
+			if d, ok := fr.lenDelta(a); ok {
+				ch.lenVals[prm] = d
+				relevant = true
+			}
+		}
+	}
+	if !relevant {
+		return false // not applied to the packet, its length or the payload
+	}
+	ch.metaDerived = func(v ssa.Value) bool {
+		o := x.origins(v)
+		for j := range o.params {
+			if j < len(args) && fr.metaDerived(args[j]) {
+				return true
+			}
+		}
+		return false
+	}
+	ch.nonceOK = func(v ssa.Value) bool {
+		r := resolve(v)
+		if prm, ok := r.(*ssa.Parameter); ok && prm.Parent() == g {
+			for i, q := range g.Params {
+				if q == prm && i < len(args) {
+					return fr.nonceOK(args[i])
+				}
+			}
+			return false
+		}
+		if _, sliced := r.(*ssa.Slice); sliced {
+			return false
+		}
+		o := x.origins(r)
+		return o.fields[x.fNonce] && !o.fields[x.fObfs] && ch.metaDerived(r)
+	}
+	x.c.Saw(fnName(g))
+	srcs := c20succSources(g, ri, wantErr)
+	good := len(srcs) > 0
+	for _, s := range srcs {
+		if !x.c20srcHolds(ch, s, wantErr, skip, kind, mkPred) {
+			good = false
+			break
+		}
+	}
+	x.helperMemo[key] = good
+	return good
+}
+
+// c20repoReach: fn and the repository functions (with bodies) it calls
+// statically, up to `depth` levels.
+func (x *c20ctx) c20repoReach(fn *ssa.Function, depth int) []*ssa.Function {
+	seen := map[*ssa.Function]bool{}
+	var out []*ssa.Function
+	var walk func(f *ssa.Function, d int)
+	walk = func(f *ssa.Function, d int) {
+		if f == nil || seen[f] || len(f.Blocks) == 0 || !x.p.IsRepoFn(f) {
+			return
+		}
+		seen[f] = true
+		out = append(out, f)
+		if d >= depth {
+			return
+		}
+		for _, ci := range callsIn(f, func(ci ssa.CallInstruction) bool { return staticCallee(ci) != nil }) {
+			walk(staticCallee(ci), d+1)
+		}
+		for _, an := range f.AnonFuncs {
+			walk(an, d+1)
+		}
+	}
+	walk(fn, 0)
+	return out
+}
+
+// c20writeExtent: the furthest constant offset (relative to the payload start)
+// at which fn slices / indexes one of the buffers in rel (buffer -> offset of
+// the payload start inside it).  Repository helpers that receive a constant
+// slice of such a buffer are followed (not `skip`, the mask function).
+func (x *c20ctx) c20writeExtent(fn *ssa.Function, rel map[ssa.Value]int64, skip *ssa.Function, depth int) int64 {
+	var h int64
+	if len(rel) == 0 {
+		return 0
+	}
+	allInstrs(fn, func(in ssa.Instruction) {
+		var root ssa.Value
+		var bound int64
+		switch t := in.(type) {
+		case *ssa.Slice:
+			r, lo, hi, ok := c20sliceChain(t)
+			if !ok {
+				return
+			}
+			root, bound = r, lo
+			if hi > bound {
+				bound = hi
+			}
+		case *ssa.IndexAddr:
+			r, lo, _, ok := c20sliceChain(t.X)
+			k, isC := constInt(t.Index)
+			if !ok || !isC {
+				return
+			}
+			root, bound = r, lo+k+1
+		case *ssa.Call:
+			g := staticCallee(t)
+			if g == nil || g == skip || depth >= 2 || len(g.Blocks) == 0 || !x.p.IsRepoFn(g) {
+				return
+			}
+			grel := map[ssa.Value]int64{}
+			for i, a := range t.Call.Args {
+				if !c20isByteSlice(a.Type()) || i >= len(g.Params) {
+					continue
+				}
+				if r, lo, _, ok := c20sliceChain(a); ok {
+					if base, isRel := rel[r]; isRel {
+						grel[g.Params[i]] = base - lo
+					}
+				}
+			}
+			if gh := x.c20writeExtent(g, grel, skip, depth+1); gh > h {
+				h = gh
+			}
+			return
+		default:
+			return
+		}
+		if base, ok := rel[root]; ok && bound-base > h {
+			h = bound - base
+		}
+	})
+	return h
 }
 
 // ---------------------------------------------------------------------------
@@ -1931,7 +2373,7 @@ func (x *c20ctx) ruleLifecycle(addFn, removeFn *ssa.Function) {
 			}
 		}
 	}
-	c.Floor("C20.R5:routing-map-accesses", nAcc, 3)
+	c.Floor("C20.R5:routing-map-accesses", nAcc, 1)
 }
 
 // ---------------------------------------------------------------------------
@@ -1970,7 +2412,7 @@ func (x *c20ctx) ruleSTUN(stunPkg string) {
 		srcs := c20succSources(S, errIdx, true)
 		n += len(srcs)
 		// m.Type.<field> == stun.<constName> (the field-wise spelling of m.Type == stun.BindingSuccess)
-		subEq := func(field, constName string) EdgePred {
+		subEq := func(msg ssa.Value, field, constName string) EdgePred {
 			var want int64 = -1
 			if pp := p.byPath[stunPkg]; pp != nil && pp.Types != nil {
 				if k, ok := pp.Types.Scope().Lookup(constName).(*types.Const); ok {
@@ -2003,33 +2445,95 @@ func (x *c20ctx) ruleSTUN(stunPkg string) {
 				okDec = false
 				posD = p.InstrPos(s.ret)
 			}
-			if !c20srcGuarded(s.from, s.to, func(cond ssa.Value, pol bool) bool {
-				b, ok := cond.(*ssa.BinOp)
-				if !ok || !((b.Op == token.EQL && pol) || (b.Op == token.NEQ && !pol)) {
+			wholeEq := func(msg ssa.Value) EdgePred {
+				return func(cond ssa.Value, pol bool) bool {
+					b, ok := cond.(*ssa.BinOp)
+					if !ok || !((b.Op == token.EQL && pol) || (b.Op == token.NEQ && !pol)) {
+						return false
+					}
+					isType := func(v ssa.Value) bool {
+						u, ok := resolve(v).(*ssa.UnOp)
+						if !ok || u.Op != token.MUL {
+							return false
+						}
+						fa, ok := u.X.(*ssa.FieldAddr)
+						if !ok || resolve(fa.X) != msg {
+							return false
+						}
+						f := structField(fa.X.Type(), fa.Field)
+						return f != nil && f.Name() == "Type"
+					}
+					isSuccess := func(v ssa.Value) bool {
+						u, ok := resolve(v).(*ssa.UnOp)
+						if !ok || u.Op != token.MUL {
+							return false
+						}
+						g, ok := u.X.(*ssa.Global)
+						return ok && g.Name() == "BindingSuccess" && g.Pkg != nil && g.Pkg.Pkg.Path() == stunPkg
+					}
+					return (isType(b.X) && isSuccess(b.Y)) || (isType(b.Y) && isSuccess(b.X))
+				}
+			}
+			// holds: the source is behind an edge accepted by mk(msg), directly or
+			// over the success edge of a repository helper applied to the message
+			// (`if !isBindingSuccess(msg)`, `if err := checkType(msg); err != nil`)
+			holds := func(mk func(msg ssa.Value) EdgePred) bool {
+				direct := mk(msg)
+				viaHelper := func(call *ssa.Call, idx int, wantErr bool) bool {
+					g := staticCallee(call)
+					if g == nil || len(g.Blocks) == 0 || !p.IsRepoFn(g) || g == S {
+						return false
+					}
+					var ri int
+					if wantErr {
+						ri = c20resultIdx(g, c20isError)
+					} else {
+						ri = c20resultIdx(g, c20isBool)
+					}
+					if ri < 0 || !(idx == ri || (idx == -1 && g.Signature.Results().Len() == 1)) {
+						return false
+					}
+					for i, a := range call.Call.Args {
+						if i >= len(g.Params) || resolve(a) != msg {
+							continue
+						}
+						inner := mk(g.Params[i])
+						gs := c20succSources(g, ri, wantErr)
+						good := len(gs) > 0
+						for _, hs := range gs {
+							hv := resolve(hs.v)
+							if !wantErr && !isConstBool(hv, true) && inner(hv, true) {
+								continue
+							}
+							if !c20srcGuarded(hs.from, hs.to, inner) {
+								good = false
+							}
+						}
+						if good {
+							c.Saw(fnName(g))
+						}
+						return good
+					}
 					return false
 				}
-				isType := func(v ssa.Value) bool {
-					u, ok := resolve(v).(*ssa.UnOp)
-					if !ok || u.Op != token.MUL {
-						return false
+				return c20srcGuarded(s.from, s.to, func(cond ssa.Value, pol bool) bool {
+					if direct(cond, pol) {
+						return true
 					}
-					fa, ok := u.X.(*ssa.FieldAddr)
-					if !ok || resolve(fa.X) != msg {
-						return false
+					if y, isNil, ok := nilTest(cond, pol); ok && isNil {
+						if call, idx := c20callResult(y); call != nil && viaHelper(call, idx, true) {
+							return true
+						}
 					}
-					f := structField(fa.X.Type(), fa.Field)
-					return f != nil && f.Name() == "Type"
-				}
-				isSuccess := func(v ssa.Value) bool {
-					u, ok := resolve(v).(*ssa.UnOp)
-					if !ok || u.Op != token.MUL {
-						return false
+					if pol {
+						if call, idx := c20callResult(cond); call != nil && viaHelper(call, idx, false) {
+							return true
+						}
 					}
-					g, ok := u.X.(*ssa.Global)
-					return ok && g.Name() == "BindingSuccess" && g.Pkg != nil && g.Pkg.Pkg.Path() == stunPkg
-				}
-				return (isType(b.X) && isSuccess(b.Y)) || (isType(b.Y) && isSuccess(b.X))
-			}) && !(c20srcGuarded(s.from, s.to, subEq("Method", "MethodBinding")) && c20srcGuarded(s.from, s.to, subEq("Class", "ClassSuccessResponse"))) {
+					return false
+				})
+			}
+			if !holds(wholeEq) && !(holds(func(m ssa.Value) EdgePred { return subEq(m, "Method", "MethodBinding") }) && holds(func(m ssa.Value) EdgePred { return subEq(m, "Class", "ClassSuccessResponse") })) {
 				okType = false
 				posT = p.InstrPos(s.ret)
 			}
